@@ -131,17 +131,20 @@ struct E2 : Engine {
 		else { unsigned x = r.below(10); limit = x < 5 ? 0 : x < 7 ? 50 + r.below(1000) : x == 7 ? 1 : x == 8 ? 2 : 3 + r.below(6); }
 		p["limit"] = limit;
 		int mem_kb = 512 << r.below(4);
+		bool squeeze = c08 && process && r.below(3) == 0;   /* squeeze plans: a small segment and values of a twelfth to a fifth of it - a handful of entries fills the segment, most stores have to make room (often for more than one entry) among live and expired entries */
+		if(squeeze){ mem_kb = 512; p["squeeze"] = 1; limit = 8 + (int)r.below(8); p["limit"] = limit; nkeys = 6 + (int)r.below(6); }
 		if(process){ p["mem_kb"] = mem_kb; }
-		bool fork2 = process && r.below(4) == 0; if(fork2) p["fork2"] = 1;   // two worker processes (real fork after the service was constructed) share the cache; small values only (no memory pressure)
+		bool fork2 = process && !squeeze && r.below(4) == 0; if(fork2) p["fork2"] = 1;   // two worker processes (real fork after the service was constructed) share the cache; small values only (no memory pressure)
 		p["fault_seed"] = (unsigned long long)(r.next() >> 8);
 		int nops = thorough ? 10 + r.below(400) : 8 + r.below(120);
-		if(process && r.below(3) == 0) nops = thorough ? 2000 + r.below(8000) : 300 + r.below(900);   // long fill/clear cycles
+		if(process && !squeeze && r.below(3) == 0) nops = thorough ? 2000 + r.below(8000) : 300 + r.below(900);   // long fill/clear cycles
+		if(squeeze) nops = 30 + (int)r.below(120);
 		bool bigvals = process && r.below(2) && nops <= 1200;   // long fill/clear cycles use moderate values (cost), short runs the huge ones
 		{ J kp = J::arr(); for(int i=0;i<nkeys && i<64;i++){ unsigned x = r.below(10); int pad = 0; if(x == 0) pad = 16 + r.below(40); else if(process && x == 1) pad = mem_kb*1024/8 + r.below(mem_kb*1024/6); else if(process && x == 2) pad = 1000 + r.below(30000); if(nops > 1200 && pad > 30000) pad = 1000 + r.below(30000); kp.push(pad); } p["key_pad"] = kp; }   // the long cycles use moderate keys (every operation copies and hashes its key: 8000 operations on an 800 KB key made a 40 s run, a real-time "hang" of the harness in a soak run)
 		J ops = J::arr(); bool gen_page_open = false;
 		auto pick_trigs = [&](J &o){ J tr = J::arr(); int n = ntrig ? r.below(3) : 0; for(int i=0;i<n;i++) tr.push((int)r.below(ntrig)); if(r.below(6) == 0) tr.push(100 + (int)r.below(nkeys)); if(r.below(50)==0) for(int i=0;i<30;i++) tr.push(200+i); o["trig"] = tr; };
 		auto pick_dl = [&]()->int { unsigned x = r.below(10); return x < 5 ? 1 + (int)r.below(8) : x < 8 ? 50 + (int)r.below(1000) : x == 8 ? -(int)r.below(3) : 0; };
-		auto pick_vlen = [&]()->int { if(bigvals){ unsigned x = r.below(20); if(x == 0) return mem_kb*1024/2 + r.below(mem_kb*1024); if(x < 4) return mem_kb*1024/40 + r.below(mem_kb*1024/8); if(x < 10) return 1000 + r.below(20000); } unsigned x = r.below(10); return x == 0 ? 0 : x < 8 ? 4 + r.below(40) : 200 + r.below(5000); };
+		auto pick_vlen = [&]()->int { if(squeeze && r.below(4)) return mem_kb*1024/12 + (int)r.below(mem_kb*1024/8); if(bigvals){ unsigned x = r.below(20); if(x == 0) return mem_kb*1024/2 + r.below(mem_kb*1024); if(x < 4) return mem_kb*1024/40 + r.below(mem_kb*1024/8); if(x < 10) return 1000 + r.below(20000); } unsigned x = r.below(10); return x == 0 ? 0 : x < 8 ? 4 + r.below(40) : 200 + r.below(5000); };
 		for(int i=0;i<nops;i++){
 			J o = J::obj(); unsigned x = r.below(100);
 			if(ctx && (gen_page_open ? r.below(100) < 30 : r.below(100) < 12)){   // whole pages: ask for one; once a request has missed its page it builds and stores it a few operations later
